@@ -69,6 +69,8 @@ def writers_reached(ctx, b):
             kinds.append("bitwise copy-out of an Entry")
         if d["swap_table"]:
             kinds.append("swaps a RawTable")
+        for c in d["own_prim"]:
+            kinds.append("duplicates/ends ownership bitwise (%s)" % c.callee)
         for (cls, c) in d["table"]:
             if cls in ("insert", "insert_grow", "remove", "drain", "clear", "into_iter"):
                 kinds.append("RawTable %s" % cls)
